@@ -16,7 +16,7 @@ import (
 func init() {
 	Registry["C11"] = C11
 	Metas["C11"] = Meta{
-		Explanation: "Decides the layout-independence clauses of C11: (L1) in the compute core every return is classified by (hit|miss, delete flag, mode) from the user-function call that reaches it, and all returns of a class carry the same result roles and the same map effect, equal to the operation contract (hit+load-if-exists: old value, no change; hit+delete: old value, slot cleared; hit+update: new or old value per mode, slot replaced; miss+delete: zero value, no change; miss+insert: new value, slot filled or bucket linked) - so results cannot depend on which slot-occupancy path (free slot, full chain, new bucket) was taken; wrapper adapters return the documented (value, delete) pair; (L2) every slot loop runs from 0 by 1 to the slot array's length and every chain walk that decides 'absent', copies, collects or tests emptiness continues to the end of the chain, advancing along the link of the bucket it stands on - in particular the lock-free lookup returns 'absent' only on a path whose last chain-link test saw next == nil; (L2b) the bucket layout constants agree with the array types and masks (writer's and reader's view); (L3) bucket index, hash seed and bucket array come from one table value per attempt (in Load, the compute core, the copy and any other method reachable from the API that selects a bucket by a hashed key), the copy rehashes with the destination table, and new table lengths are doublings/halvings of the current length, the minimum length or a power of two, every constructor records the installed table's length as the minimum and a half-length table is created only on paths that established 'length > minimum'; the per-slot masks of the packed top-hash word are disjoint, equally wide and clear of the flag bits for every analysed target; (L4) the clear hint installs a fresh minimum-size table and copies nothing; (L5) the integrity premises of grow / shrink / Clear and of the packed bucket words are restated from C03/C04 (P4, P6, P7, P10); (L6) keys that compare equal hash equal under every seed (hasher rules restated from C10). NOT decided: equivalence with a builtin map over call sequences.",
+		Explanation: "Decides the layout-independence clauses of C11: (L1) in the compute core every return is classified by (hit|miss, delete flag, mode) from the user-function call that reaches it, and all returns of a class carry the same result roles and the same map effect, equal to the operation contract (hit+load-if-exists: old value, no change; hit+delete: old value, slot cleared; hit+update: new or old value per mode, slot replaced; miss+delete: zero value, no change; miss+insert: new value, slot filled or bucket linked) - so results cannot depend on which slot-occupancy path (free slot, full chain, new bucket) was taken; wrapper adapters return the documented (value, delete) pair, and every result of a value-returning wrapper is the compute core's result for that call - or 'not found' on the miss edge of a lock-free reader or presence filter of the map, or, in LoadOrStore / LoadOrCompute only, the value on the found edge of a lock-free reader (the operations that replace or remove report what the locked step saw); (L2) every slot loop runs from 0 by 1 to the slot array's length and every chain walk that decides 'absent', copies, collects or tests emptiness continues to the end of the chain, advancing along the link of the bucket it stands on - in particular the lock-free lookup returns 'absent' only on a path whose last chain-link test saw next == nil; (L2b) the bucket layout constants agree with the array types and masks (writer's and reader's view); (L3) bucket index, hash seed and bucket array come from one table value per attempt (in Load, the compute core, the copy and any other method reachable from the API that selects a bucket by a hashed key), the copy rehashes with the destination table, and new table lengths are doublings/halvings of the current length, the minimum length or a power of two, every constructor records the installed table's length as the minimum and a half-length table is created only on paths that established 'length > minimum'; the per-slot masks of the packed top-hash word are disjoint, equally wide and clear of the flag bits for every analysed target; (L4) the clear hint installs a fresh minimum-size table and copies nothing; (L5) the integrity premises of grow / shrink / Clear and of the packed bucket words are restated from C03/C04 (P4, P6, P7, P10); (L6) keys that compare equal hash equal under every seed (hasher rules restated from C10). NOT decided: equivalence with a builtin map over call sequences.",
 		Rule:        "one obligation per (rule, specialisation, exit | loop | constant | call site); non-trivial = decided from explored product-graph paths, loop induction analysis or type-level constants",
 		Assumptions: []string{"runtime hash functions are deterministic per (key, seed)", "C03/C04 protocol shape"},
 	}
@@ -167,7 +167,7 @@ func c11L1(r *Run, rep *core.Report) {
 						}
 					}
 					if c, isC := v.(*ssa.Const); !okRes && isC {
-						if b := ret.Block(); len(b.Preds) == 1 && missEdgeOfAnyLoad(mm, b) {
+						if b := ret.Block(); len(b.Preds) == 1 && (missEdgeOfAnyLoad(mm, b) || missEdgeOfAnyReader(r, mm, b)) {
 							okRes = true
 						}
 						_ = c
@@ -1457,7 +1457,7 @@ func hitEdgeOfAnyReader(r *Run, mm *core.MapModel, b *ssa.BasicBlock, v ssa.Valu
 	found := false
 	core.Instrs(b.Parent(), func(in ssa.Instruction) {
 		c, ok := in.(*ssa.Call)
-		if !ok || !isReader[core.Callee(c)] || !onEdgeOf(b, c, true) {
+		if !ok || !isReader[core.Callee(c)] || !onFlagEdge(b, c, true) {
 			return
 		}
 		switch x := v.(type) {
@@ -1469,6 +1469,11 @@ func hitEdgeOfAnyReader(r *Run, mm *core.MapModel, b *ssa.BasicBlock, v ssa.Valu
 			if bv, isB := core.ConstBool(x); isB && bv && idx == 1 {
 				found = true
 			}
+		default:
+			// a reader that returns a pointer: the value behind it / a field of the entry
+			if idx == 0 && derivesFromCall(v, c) {
+				found = true
+			}
 		}
 	})
 	return found
@@ -1478,6 +1483,23 @@ func missEdgeOfAnyLoad(mm *core.MapModel, b *ssa.BasicBlock) bool {
 	found := false
 	core.Instrs(b.Parent(), func(in ssa.Instruction) {
 		if c, ok := in.(*ssa.Call); ok && core.Callee(c) == mm.Methods["Load"] && onMissEdge(b, c) {
+			found = true
+		}
+	})
+	return found
+}
+
+// missEdgeOfAnyReader: as missEdgeOfAnyLoad, for the other lock-free readers and presence filters of the map (whose
+// 'not found', being taken as final here, is held to the chain-end rule P11).
+func missEdgeOfAnyReader(r *Run, mm *core.MapModel, b *ssa.BasicBlock) bool {
+	readers, others := secondReadersAll(r, mm)
+	is := map[*ssa.Function]bool{}
+	for _, f := range append(readers, others...) {
+		is[f] = true
+	}
+	found := false
+	core.Instrs(b.Parent(), func(in ssa.Instruction) {
+		if c, ok := in.(*ssa.Call); ok && is[core.Callee(c)] && onFlagEdge(b, c, false) {
 			found = true
 		}
 	})
